@@ -152,8 +152,8 @@ func Align(nx, ny int, f EqualFunc) (es EditScript) {
 }
 
 // maxAlignBudget bounds the additional comparisons Align may spend, so that a
-// list of thousands of elements that were all rewritten stays cheap.
-const maxAlignBudget = 1 << 16
+// list of thousands of elements that were all rewritten stays affordable.
+const maxAlignBudget = 1 << 20
 
 func difference(nx, ny, searchBudget int, f EqualFunc) (es EditScript) {
 	// This algorithm is based on traversing what is known as an "edit-graph".
